@@ -1,12 +1,15 @@
 #!/bin/bash
 # seedtest.sh <patch.diff> <prop> [tier] : apply a seeded change to /repo, run the check, undo.
 patch="$1"; prop="$2"; tier="${3:-quick}"
+# MX_REPO / MX_VERIF: scratch copies (see seeded/mx_setup.sh) so that a matrix run does not disturb /repo or /verif
+REPO="${MX_REPO:-/repo}"; VERIF="${MX_VERIF:-/verif}"
 # a patch rebased onto the hooked tree takes precedence
 if [ -f "${patch%patch.diff}patch.rebased.diff" ]; then patch="${patch%patch.diff}patch.rebased.diff"; fi
-cd /repo || exit 9
+cd "$REPO" || exit 9
 if [ -n "$(git status --porcelain --untracked-files=no)" ]; then echo "repo dirty"; exit 9; fi
-if ! git apply -3 "$patch" 2>/tmp/apply.err && ! git apply "$patch" 2>>/tmp/apply.err; then echo "APPLY FAILED: $(cat /tmp/apply.err | head -5)"; git checkout -- . ; git reset -q; exit 9; fi
-cd /verif && ./bin/check "$prop" "$tier" > /tmp/seedtest.out 2>&1; code=$?
-git -C /repo reset -q; git -C /repo checkout -- .; git -C /repo status --porcelain --untracked-files=no | grep -q . && echo "WARNING repo not clean"
-grep -E "^(VIOLATION|MACHINERY|KNOWN|RESULT|  signature)" /tmp/seedtest.out | head -8
+if ! git apply -3 "$patch" 2>/tmp/apply.$$.err && ! git apply "$patch" 2>>/tmp/apply.$$.err; then echo "APPLY FAILED: $(cat /tmp/apply.$$.err | head -5)"; git checkout -- . ; git reset -q; exit 9; fi
+cd "$VERIF" && ./bin/check "$prop" "$tier" > /tmp/seedtest.$$.out 2>&1; code=$?
+git -C "$REPO" reset -q; git -C "$REPO" checkout -- .; git -C "$REPO" status --porcelain --untracked-files=no | grep -q . && echo "WARNING repo not clean"
+grep -E "^(VIOLATION|MACHINERY|KNOWN|RESULT|  signature)" /tmp/seedtest.$$.out | head -8
 echo "exit=$code"
+rm -f /tmp/seedtest.$$.out /tmp/apply.$$.err
